@@ -17,5 +17,5 @@ for name in $names; do
   done
   echo "$line" | tee -a $out.tmp
 done
-rm -rf $scratch
+rm -rf $scratch; rm -f .build/*.$(echo "$scratch" | md5sum | cut -c1-8)*
 sort -u $out.tmp > $out; rm -f $out.tmp
